@@ -22,6 +22,19 @@ CLAIMED = {
     technique="contract-based deductive verification: VCs generated from the real AST by symbolic execution, "
               "refinement against spec functions, discharged by z3 (QF_BV)",
     note=TB + "; frame widths above the bound are not covered; __str__ proved total only"),
+ "C04": dict(
+    category="proof",
+    text="Every address class (8 kinds) and instance class (11 kinds): constructor, from_frame, add_to_frame, ==, str, "
+         "the Address.from_frame scan and instance_from_frame are each verified against specification functions that "
+         "transcribe the standard's address-byte and instance-byte partition, for all frames of every width 1..64 "
+         "(refusal with IncompatibleFrame / None and frame unchanged for wrong sizes), all numbers, all pairs of kinds "
+         "for equality and wrong-type constructor arguments; callers are checked against the Frame contracts. Lemmas over "
+         "the contracts: write-then-read round trip with locality (only the field's bits change) for every kind, at most "
+         "one kind per frame and the scan returns it, every instance byte has exactly one kind.",
+    design_ref="DESIGN.md 6 (C04)",
+    technique="contract-based deductive verification: refinement of each real function against a spec function + lemmas over "
+              "contracts, z3 QF_BV",
+    note=TB + "; partition tables in contracts/address.py are transcribed from the property statement and trusted"),
 }
 
 NA_REASON = "check under construction in this round (no obligations built yet); see DESIGN.md section 6"
